@@ -261,9 +261,12 @@ func c03Units(ctx *core.Ctx) []core.Unit {
 		probe("after 140 proofs at other points")
 	}})
 	// IPA proofs against the reference prover
-	ipaPts := []*big.Int{bi(0), bi(255), bi(256), new(big.Int).Sub(bigR, bi(1))}
+	// in and out of the domain; k + m*2^64 with k < 256 (only the low limb looks like a domain point); values with
+	// a tiny Montgomery representation
+	rinvC03 := new(big.Int).ModInverse(pow2(256), bigR)
+	ipaPts := []*big.Int{bi(0), bi(255), bi(256), new(big.Int).Sub(bigR, bi(1)), pow2(64), new(big.Int).Add(pow2(64), bi(5)), new(big.Int).Add(pow2(128), bi(200)), new(big.Int).Mod(new(big.Int).Mul(rinvC03, bi(7)), bigR)}
 	if ctx.Thorough() {
-		ipaPts = append(ipaPts, bi(1), bi(128), bi(257), pow2(64), prfR(ctx.Seed, "c03", 0))
+		ipaPts = append(ipaPts, bi(1), bi(128), bi(257), prfR(ctx.Seed, "c03", 0), new(big.Int).Add(pow2(192), bi(1)))
 	}
 	for _, z := range ipaPts {
 		z := z
@@ -295,6 +298,17 @@ func c03Units(ctx *core.Ctx) []core.Unit {
 							vsched.SetNumCPU(k)
 						}
 						in := fmt.Sprintf("CreateIPAProof(poly=%s, point=%s) NumCPU=%d commitment=%s", p.Name, clipHex(z), k, reprNames[rk])
+						if k == 2 || k == 17 {
+							// history: calls that end with an error come first (wrong lengths, at this point and at an
+							// in-domain point); the proof bytes may not depend on them
+							func() {
+								defer func() { recover() }()
+								ipa.CreateIPAProof(common.NewTranscript("ipa"), c, cm, a[:255], frFromBig(z))
+								ipa.CreateIPAProof(common.NewTranscript("ipa"), c, cm, a[:100], frFromBig(bi(9)))
+								ipa.CreateIPAProof(common.NewTranscript("ipa"), c, cm, append(append([]fr.Element(nil), a...), a[0]), frFromBig(bi(200)))
+							}()
+							in += " after prover calls that ended with an error"
+						}
 						ti := common.NewTranscript("ipa")
 						var proof ipa.IPAProof
 						var err error
